@@ -440,7 +440,7 @@ impl Accumulator {
 
     /// Decode from binary format (big-endian)
     pub fn from_bytes(b: &[u8]) -> ClResult<Self> {
-        Ok(PointG2::from_bytes(b)?.into())
+        Ok(PointG2::from_bytes_inf(b)?.into())
     }
 }
 
